@@ -40,6 +40,10 @@ struct rframe {
     size_t hdrlen;                /* octets of header incl. checksums */
     const unsigned char *payload; /* wire octets */
     size_t plen;
+    /* filled by rr_verdict */
+    unsigned faults;   /* fault classes that definitely apply */
+    unsigned alts;     /* fault classes that apply under one admissible reading of the document */
+    bool plcrc_empty;  /* declares a payload checksum but carries no payload ("shall be unset") */
 };
 
 /* raw frame octets for the given fields.  The checksums are computed unless
@@ -84,13 +88,22 @@ enum { RV_OK = 1, RV_BADHDR = 2, RV_BADHDRCRC = 4, RV_BADSIZE = 8, RV_BADPLCRC =
 
 /* Independent reading of doc/regp.txt: the set of admissible verdicts for an
  * arbitrary octet string taken as one frame.  Fields are filled as far as the
- * header could be read. */
+ * header could be read.
+ *
+ * The document names four ways in which a frame can be wrong but does not say
+ * in which order a receiver has to look for them, so a frame that is wrong in
+ * several ways may be classified by any of them: the result is the union of
+ * every fault class that applies (each one evaluated as far as the octets
+ * allow it), RV_OK only if none applies.  Where the document itself can be
+ * read both ways (f->alts) the set holds both readings. */
 static unsigned
 rr_verdict(const unsigned char *raw, size_t n, struct rframe *f)
 {
     memset(f, 0, sizeof *f);
-    if (n < 12)
+    if (n < 12) {
+        f->faults = RV_BADHDR;
         return RV_BADHDR;
+    }
     const unsigned motv = ((unsigned)raw[0] << 8) | raw[1];
     f->version = motv & 15u;
     f->type = (motv >> 4) & 15u;
@@ -99,28 +112,34 @@ rr_verdict(const unsigned char *raw, size_t n, struct rframe *f)
     f->seq = (uint16_t)((raw[2] << 8) | raw[3]);
     f->addr = ((uint32_t)raw[4] << 24) | ((uint32_t)raw[5] << 16) | ((uint32_t)raw[6] << 8) | raw[7];
     f->bsize = ((uint32_t)raw[8] << 24) | ((uint32_t)raw[9] << 16) | ((uint32_t)raw[10] << 8) | raw[11];
+    unsigned v = 0, alt = 0;
+    bool type_known = true;
     if (f->version != 0)
-        return RV_BADHDR;
+        v |= RV_BADHDR;
     if (f->options & 8u)
-        return RV_BADHDR;
+        v |= RV_BADHDR;
     switch (f->type) {
     case RT_READ_REQ: case RT_WRITE_REQ:
-        if (f->meta != 0) return RV_BADHDR;
+        if (f->meta != 0) v |= RV_BADHDR;
         break;
     case RT_READ_RESP: case RT_WRITE_RESP:
-        if (f->meta > 11) return RV_BADHDR;
+        if (f->meta > 11) v |= RV_BADHDR;
         break;
     case RT_META:
-        if (f->meta < 1 || f->meta > 2) return RV_BADHDR;
+        if (f->meta < 1 || f->meta > 2) v |= RV_BADHDR;
         break;
     default:
-        return RV_BADHDR;
+        v |= RV_BADHDR;
+        type_known = false;
     }
     size_t h = 12;
     if (f->options & RO_HDCRC) h += 2;
     if (f->options & RO_PLCRC) h += 2;
-    if (n < h)
+    if (n < h) {
+        /* the declared header is not there: nothing else can be evaluated */
+        f->faults = RV_BADHDR;
         return RV_BADHDR;
+    }
     f->hdrlen = h;
     size_t o = 12;
     if (f->options & RO_HDCRC) {
@@ -136,24 +155,49 @@ rr_verdict(const unsigned char *raw, size_t n, struct rframe *f)
         if (f->options & RO_PLCRC)
             c = rr_crc(c, raw + h - 2, 2);
         if (c != f->hdcrc)
-            return RV_BADHDRCRC;
+            v |= RV_BADHDRCRC;
     }
     f->payload = raw + h;
     f->plen = n - h;
-    uint64_t want;
-    if (f->type == RT_READ_REQ || f->type == RT_META)
-        want = 0;
-    else
-        want = (uint64_t)f->bsize * ((f->options & RO_W16) ? 2u : 1u);
-    if (want != f->plen)
-        return RV_BADSIZE;
-    if ((f->options & RO_PLCRC) && f->plen == 0)
-        return RV_OK | RV_BADHDR | RV_BADPLCRC; /* "shall be unset": the document does not decide */
-    if (f->options & RO_PLCRC) {
-        if (rr_crc(0, f->payload, f->plen) != f->plcrc)
-            return RV_BADPLCRC;
+    if (type_known) {
+        uint64_t want;
+        if (f->type == RT_READ_REQ || f->type == RT_META)
+            want = 0;
+        else
+            want = (uint64_t)f->bsize * ((f->options & RO_W16) ? 2u : 1u);
+        if (want != f->plen)
+            v |= RV_BADSIZE;
+        else if ((f->type == RT_READ_RESP || f->type == RT_WRITE_RESP) && f->meta <= 11) {
+            /* doc 3.1.x fixes the payload of most response kinds.  Whether a
+             * receiver has to hold a response to that is not said: both
+             * readings are admitted. */
+            const unsigned code = f->meta;
+            const bool none = code == 1 || code == 2 || code == 3 || code == 6 || code == 11 || (code == 0 && f->type == RT_WRITE_RESP);
+            const bool four = code == 4 || code == 5 || (code >= 7 && code <= 10);
+            if (none && f->plen != 0)
+                alt |= RV_BADSIZE;
+            if (four && (f->plen != 4 || (f->options & RO_W16)))
+                alt |= RV_BADSIZE | ((f->options & RO_W16) ? RV_BADHDR : 0);
+        }
     }
-    return RV_OK;
+    if ((f->options & RO_PLCRC) && f->plen == 0) {
+        f->plcrc_empty = true;
+        alt |= RV_BADHDR | RV_BADPLCRC; /* "shall be unset": the document does not decide */
+    } else if (f->options & RO_PLCRC) {
+        if (rr_crc(0, f->payload, f->plen) != f->plcrc)
+            v |= RV_BADPLCRC;
+    }
+    f->faults = v;
+    f->alts = alt;
+    return (v ? v : RV_OK) | alt;
+}
+
+/* a frame the library itself sent: valid, and not relying on the undecided
+ * "payload checksum declared without payload" */
+static inline bool
+rr_reply_ok(unsigned v, const struct rframe *f)
+{
+    return (v & RV_OK) && !f->plcrc_empty;
 }
 
 /* ---- framing ------------------------------------------------------------------------ */
@@ -277,7 +321,7 @@ struct drv {
     BlockAllocator alloc;
     /* allocator ledger */
     size_t blocksize;
-    void *live[4];
+    void *live[8];
     int nlive, allocs, frees, bad_frees;
     unsigned fail_mask; /* bit k set: k-th allocation fails */
     /* backend */
@@ -314,12 +358,14 @@ drv_alloc(void *driver, void **m, size_t n)
         *m = NULL;
         return -ENOMEM;
     }
-    if (n != d->blocksize || d->nlive >= 4) {
-        d->bad_frees += 100;
+    if (d->nlive >= 8) {
+        d->bad_frees += 100; /* more live blocks than any sensible receiver needs: leak */
         *m = NULL;
         return -ENOMEM;
     }
-    *m = malloc(n); /* exact size: ASan guards both ends */
+    /* whatever size is asked for (the statement does not forbid further
+     * allocations): exact size, so that ASan guards both ends */
+    *m = malloc(n ? n : 1);
     memset(*m, 0xcd, n);
     d->live[d->nlive++] = *m;
     return 0;
@@ -409,6 +455,20 @@ drv_sink_chunk(void *driver, const void *data, size_t n)
     return (ssize_t)n;
 }
 
+/* scratch region a chunk source may offer through the getbuffer extension:
+ * sts_n then moves the frame in chunks of up to 64 octets instead of octet by
+ * octet (a global of its own, so that ASan guards both ends) */
+static unsigned char drv_scratch[64];
+
+static ByteBuffer
+drv_src_getbuffer(Source *s)
+{
+    (void)s;
+    ByteBuffer b;
+    byte_buffer_use(&b, drv_scratch, sizeof drv_scratch); /* region [offset, used) = the whole block */
+    return b;
+}
+
 static RPBlockAccess
 drv_access(bool write, bool m16, uint32_t addr, size_t bsize, const void *rd, void *wr)
 {
@@ -456,9 +516,12 @@ drv_read_octet(uint32_t addr, size_t i)
     return (unsigned char)(0x30 + 7 * i + (addr & 0xf));
 }
 
+enum { DRV_SRC_CHUNK = 0, DRV_SRC_OCTET = 1, DRV_SRC_CHUNK_GETBUFFER = 2 };
+
 static void
-drv_init(struct drv *d, bool tcp, bool m16, size_t blocksize, bool octet_source)
+drv_init_ex(struct drv *d, bool tcp, bool m16, size_t blocksize, int srcmode)
 {
+    const bool octet_source = srcmode == DRV_SRC_OCTET;
     memset(d, 0, sizeof *d);
     g_drv = d;
     regp_init(&d->p);
@@ -476,12 +539,20 @@ drv_init(struct drv *d, bool tcp, bool m16, size_t blocksize, bool octet_source)
         octet_source_init(&src, drv_src_octet, d);
     else
         chunk_source_init(&src, drv_src_chunk, d);
+    if (srcmode == DRV_SRC_CHUNK_GETBUFFER)
+        src.ext.getbuffer = drv_src_getbuffer;
     chunk_sink_init(&snk, drv_sink_chunk, d);
     regp_use_channel(&d->p, tcp ? RP_EP_TCP : RP_EP_SERIAL, src, snk);
     d->verdict = RP_RESP_ACK;
     d->src_err_at = d->sink_err_at = -1;
     d->src_err = d->sink_err = -EIO;
     d->src_budget = 100000;
+}
+
+static void
+drv_init(struct drv *d, bool tcp, bool m16, size_t blocksize, bool octet_source)
+{
+    drv_init_ex(d, tcp, m16, blocksize, octet_source ? DRV_SRC_OCTET : DRV_SRC_CHUNK);
 }
 
 static void
